@@ -2294,7 +2294,9 @@ impl QueryRouter {
     }
 
     fn cache_key_for_query(command: &str) -> String {
-        format!("query:{}", command.trim().to_lowercase())
+        // The text is the key as written: string literals and identifiers are case-sensitive,
+        // so folding case would answer one statement with the cached result of another.
+        format!("query:{}", command.trim())
     }
 
     fn try_cache_get(&self, command: &str) -> Option<QueryResult> {
